@@ -38,8 +38,8 @@ def denote(s):
     """what a hash string denotes, or None if it cannot be read"""
     try:
         parts = s.encode("utf-8").split(b":")
-        if len(parts) < 4:
-            return None
+        if len(parts) != 4:
+            return None     # the documented format has exactly four ':' separated fields
         params = base64.b64decode(parts[2])
         data = base64.b64decode(parts[3])
         N, r, p, sl, ln = struct.unpack(">HBBBB", params)
@@ -75,6 +75,16 @@ def corruptions(h):
         yield "duplicate-field-%d" % i, ":".join(parts[:i + 1] + parts[i:])
         yield "empty-field-%d" % i, ":".join(parts[:i] + [""] + parts[i + 1:])
     yield "extra-field", h + ":extra"
+    yield "extra-field", h + ":"
+    yield "extra-field", h + "::"
+    yield "extra-field", h + ":AAAA"
+    yield "extra-field", h + ":x:y"
+    yield "extra-field", h + ":" + h
+    last0 = len(h) - len(h.split(":")[-1])
+    for i in range(last0, len(h)):
+        yield "extra-field", h[:i] + ":" + h[i:]        # a separator inside the salt+digest field
+    for i in range(0, last0, 3):
+        yield "extra-field", h[:i] + ":" + h[i:]
     yield "leading-colon", ":" + h
     yield "no-colons", h.replace(":", "")
     yield "colons->semicolons", h.replace(":", ";")
